@@ -179,7 +179,7 @@ def access_targets():
     cft = Fn('cache_flatten_task', ITU, 'cache_flatten', flt='flatten_iterator_t::cache_flatten', lambda_index=0, members=members, calls=calls,
              extra_params=['struct nv_samples* samples', 'struct nv_dataset* dataset'], **common)
     return [Target('targets_scaled', [tsc()], H), Target('flatten_scaled', [fsc()], H),
-            Target('targets_at', [tat, tsc()], H), Target('flatten_at', [fat, fsc()], H),
+            Target('targets_at', [tat, tsc(), mkr(), rng()], H), Target('flatten_at', [fat, fsc(), mkr(), rng()], H),
             Target('cache_targets_task', [ctt, tsc(), mkr(), rng()], H), Target('cache_flatten_task', [cft, fsc(), mkr(), rng()], H)]
 
 
@@ -373,12 +373,18 @@ def build(tier):
             'linear::accumulator_t / gboost::accumulator_t clear, operator+=, operator/=: every partial-sum field (m_vm1, m_gb1 and m_gW1 for linear) is zeroed / added from the SAME field of `other` / divided by (double)samples, exactly once; the buffers m_outputs/m_vgrads/m_values are untouched (frame); *this is returned',
             'gboost clear(accumulators): every per-thread accumulator is cleared exactly once',
             'flatten_iterator_t::loop (both callbacks), targets_iterator_t::loop: map is called once with (samples().size(), batch()); base_dataset_iterator_t::map forwards (elements, chunksize) in this order to thread_pool().map; each task calls the callback exactly once with range [begin, end), the same tnum and the inputs / targets of exactly that (tnum, range); make_range / tensor_range_t(begin, end) store (begin, end).  With C17 (pool_t::map tiles [0, elements), tnum < pool size): every sample reaches the callback in exactly one range',
+            'linear::function_t::do_vgrad, gboost::bias/scale_function_t::do_vgrad (protocol up to the reduction): every per-thread accumulator is cleared before the samples are visited; exactly one loop over the function\'s own iterator; exactly one sum_reduce over the function\'s accumulators, after the loop, whose normaliser is the number of samples of the iterator that was looped over; value and gradient handed back are read from the reduced accumulator (linear: + the regularisation terms computed from the weights part of x, gradient parts written into gx once each)',
+            'gboost::grads_function_t::do_vgrad / gradients: one loop over the iterator; gradient = m_vgrads / (double)#iterator samples written into gx iff requested; value = mean of m_values',
+            'chunk tasks (the lambdas handed to loop): the task touches only m_accumulators[tnum]; predictions are computed from the chunk\'s inputs and the current parameters, loss values / gradients from the chunk\'s targets and these predictions, written to the chunk\'s own slots; the partial sums receive exactly once the sum of the chunk\'s loss values and, iff a gradient is requested, the chunk\'s gradient contributions (linear: column sums and gradients^T * inputs over all rows of the chunk; scale: per sample, strong + (cluster < 0 ? 0 : x[cluster]) * weak of the sample at that position, gradient <gradient row, weak row of the same sample> added to m_gb1[cluster of that sample], unassigned samples skipped; grads: values and gradients of the chunk go to rows [begin, end) of m_values / m_vgrads)',
+            'gboost::accumulator_t::update / vgrad: m_vm1 += sum of the given values; vgrad returns m_vm1 and copies m_gb1 into gx iff gx is not empty',
+            'access paths targets(tnum, range) / flatten(tnum, range): cached and on-the-fly branch return rows gathered for exactly the sample positions of the range that went exactly once through the scaling function with this iterator\'s statistics and mode; on-the-fly rows live in the per-thread buffer tnum; the chunk tasks of cache_targets / cache_flatten store such rows into rows [begin, end) of the cache; the wrappers targets(map) / flatten(map) scale with (own statistics, m_scaling)',
             'BOUNDED (|W| = 1, 2, 3; entries, l1, l2, loss symbolic reals): linear::function_t::do_vgrad returns loss + l1*mean|W| + (l2/2)*mean(W^2) and, when a gradient is requested, writes gW1 + l1*sign(W)/|W| + l2*W/|W| into the weights part of gx'],
         'not_decided': [
             'the loss values and their gradients (mean_i loss(t_i, W x_i + b), gboost bias/scale/grads objectives): numeric, Eigen kernels',
             'independence of the result from thread count / batch size beyond the combinatorial skeleton: floating-point re-association (1e-9 clause), and ANY effect of concurrent execution (races on per-thread buffers, accumulator index tnum used by two tasks at once)',
-            'the bodies of the per-range lambdas of linear::function_t::do_vgrad and gboost::*_function_t (Eigen expressions): accumulator index == tnum, accumulation of values and gradients; the order clear -> loop -> reduce inside do_vgrad is visible in the extracted text but only the regularisation part is under contract',
-            'cached vs uncached inputs/targets (flatten(tnum, range) / targets(tnum, range) bodies), feature scaling, missing values',
+            'the numeric kernels themselves (linear::predict, loss_t::value / vgrad, Eigen products and reductions, scalar_stats_t::scale formulas incl. missing -> 0: C14)',
+            'cache_targets / cache_flatten outer bodies (they contain try/catch, which the printer refuses): that the cache is resized to one row per sample and that the chunk task is mapped over all samples; the cache invariant (built under the CURRENT scaling mode) is a precondition: targets_iterator_t::scaling(mode) does not invalidate an existing cache (the library sets the mode before caching: src/linear.cpp:35-37)',
+            'constructors of the objectives (m_values / m_vgrads / m_outputs have one row per iterator sample; m_accumulators has concurrency() entries)',
             'regularisation identities for |W| > 3 (the proof is per array size; 1..3 are checked), IEEE rounding (double treated as real)',
             'select_iterator_t::loop (feature-wise iteration) and cache_flatten / cache_targets'],
         'assumptions': [
@@ -388,6 +394,8 @@ def build(tier):
             'tensor operations zero() / array() = 0 / += / /= act coefficient-wise on the whole tensor (Eigen / tensor_t assumed contract); Eigen abs/square/sign/mean/scalar*array/array/scalar interpreted by their definitions on real entries; std::sqrt(v) is a non-negative s with s*s == v; double treated as Real in the regularisation VCs',
             'std::vector::operator[] / range-for / std::min_element(first, last, comp): returns an iterator to an element such that no element compares less (stated at positions 0 and g)',
             'scalar double + and / are uninterpreted in the accumulator contracts (congruence only): the postconditions hold for every interpretation, IEEE included',
+            'provenance models: a tensor map passed / copied by value shares the storage it was created from (hooks scale_view_hook, loss_hook, rows_assign_hook); loss_t::value / vgrad write one row per sample of their arguments; linear::predict computes outputs row-wise from inputs; dataset_t::targets / flatten gather the raw rows of the given samples into the given buffer; scalar_stats_t::scale scales in place (and maps missing to 0)',
+            'tnum < number of per-thread buffers / accumulators (C17: tnum < pool size == concurrency(), the size these vectors are constructed with)',
             'sum_reduce inside do_vgrad is represented by a symbolic reduced accumulator in the regularisation VCs (its protocol is the subject of the sum_reduce targets)'],
         'trusted': [],
     }
@@ -399,6 +407,22 @@ def replay(rp):
     import re
     import replaylib
     out = {'reproduced': False, 'runs': []}
+    if re.match(r'(linear|bias|scale|grads)_(do_vgrad|task)$|grads_gradients$|(targets|flatten)_(at|scaled)$|cache_(targets|flatten)_task$', rp['target']):
+        # objective protocol / access paths: the REAL objectives of the working tree (library rebuilt incrementally) over a strict
+        # subset of a 30-sample dataset: MEAN (objective == mean of the single-sample objectives) and CACHE (cached == on the fly
+        # for every scaling mode); the verifier's counterexample is symbolic (iterator size != dataset / cluster size)
+        exe = replaylib.build_with_library('replay/C09_objective_replay.cpp', 'C09_objective_replay')
+        for args in ([5, 23, 3, 4], [0, 17, 1, 100], [10, 30, 2, 7]):
+            try:
+                rc, so, se = replaylib.run_driver(exe, args, timeout=300)
+            except Exception as e:
+                out['runs'].append({'args': args, 'error': repr(e)})
+                continue
+            bad = [ln for ln in so.splitlines() if '"ok": false' in ln]
+            out['runs'].append({'first_last_threads_batch': args, 'exit': rc, 'violated': bad[:6]})
+            if rc == 1:
+                out['reproduced'] = True
+        return out
     if not re.match(r'(sum_reduce|min_reduce)', rp['target']):
         out['note'] = 'no native driver for this target: the replay file carries the verifier output only'
         return out
